@@ -895,6 +895,12 @@ func (c *Client) connect() error {
 	// No need for further closed channel checks as the
 	// connSem lock is required to close any of them.
 
+	// Close and Disconnect cancel before they lock.
+	if c.ctx.Err() != nil {
+		c.connSem <- previousConn // unlock
+		return ErrClosed
+	}
+
 	config := c.Config // copy
 	// Reconnects shouldn't reset the session.
 	if previousConn != nil {
